@@ -604,6 +604,58 @@ fn ffi_histories_part(run: &mut Run, n: usize) {
     }
 }
 
+/// Many repetitions of one call, for each entry point on its own (no other entry point in between):
+/// anything that counts, fills up or wears out across calls shows after enough of them.
+fn repetition_part(run: &mut Run, reps: usize) {
+    use cooklang::parser::PullParser;
+    let mut srcs: Vec<String> = vec![
+        // documents that produce many parser-stage diagnostics
+        (0..60).map(|i| format!(">> : v{i}\n")).collect::<String>(),
+        (0..40).map(|i| format!("@{{}} #{{}} ~{{}} @a{{1/0}} {i}\n\n")).collect::<String>(),
+        (0..50).map(|i| format!(">> k{i}: v\n>> : w\n")).collect::<String>() + "@a{%kg} @&zz{}",
+        "---\nservings: many\ntime: soon\nlocale: english\n---\n@&a{} @a|{} ~{5} #p{1%kg}\n".to_string(),
+        "Mix @flour{1 1/2%cups} and @water{11/2%cups} and @salt{0 1/2%tsp} and @x{01/2}.\n".to_string(),
+    ];
+    for c in batch(run.seed ^ 0x4e9, 12).into_iter().take(6) {
+        srcs.push(c.input());
+    }
+    let p = parser(EXT_ALL, 1);
+    type Call = fn(&CooklangParser, &str) -> String;
+    let calls: [(&str, Call); 4] = [
+        ("parse_metadata", |p, s| {
+            let m = p.parse_metadata(s);
+            format!("{:?}{:?}", m.output().map(|m| serde_json::to_string(m).unwrap_or_default()), m.report().iter().map(|d| format!("{:?}|{}|{:?}", d.severity, d.message, d.labels)).collect::<Vec<_>>())
+        }),
+        ("parse", |p, s| crate::c02::result_image(&p.parse(s))),
+        ("parse_with_options", |p, s| crate::c02::result_image(&p.parse_with_options(s, test_options()))),
+        ("PullParser events", |p, s| format!("{:?}", PullParser::new(s, p.extensions()).collect::<Vec<_>>())),
+    ];
+    let mut st = Stats::default();
+    let mut fail = None;
+    'outer: for (name, call) in calls {
+        for src in &srcs {
+            let Ok(first) = guard(|| call(p, src)) else { continue };
+            for k in 1..reps {
+                st.eval();
+                let again = guard(|| call(p, src)).unwrap_or_else(|e| format!("panic:{e}"));
+                if again != first {
+                    fail = Some((
+                        Violation::new("c18.repeat-differs", format!("call #{} of {name} on the same input differs from the first one\n first {}\n now   {}\n input {src:?}", k + 1, truncate(&first, 1200), truncate(&again, 1200))),
+                        serde_json::json!({"pieces": [src], "ext": EXT_ALL, "conv": 1}),
+                    ));
+                    break 'outer;
+                }
+            }
+            st.nontrivial(&(name, src));
+        }
+    }
+    st.sample(|| json!(srcs[3]));
+    run.add_part("repetition", &format!("{} inputs (documents with dozens of parser-stage errors, look-alike quantities, generated ones), each passed {reps} times in a row to parse_metadata, then to parse, parse_with_options and the raw event stream - one entry point at a time, nothing else in between: every result must equal the first; non-trivial = every (entry point, input)", srcs.len()), st, false);
+    if let Some((v, case)) = fail {
+        run.fail("repetition", v, case);
+    }
+}
+
 fn processes_part(run: &mut Run, n: usize) {
     let mut st = Stats::default();
     let exe = std::env::current_exe().expect("current exe");
@@ -708,6 +760,9 @@ pub fn run(tier: Tier) -> i32 {
         entry_points_part(&mut run, tier.pick(1500, 60000) as usize);
     }
     if !run.failed() {
+        repetition_part(&mut run, tier.pick(60, 1500) as usize);
+    }
+    if !run.failed() {
         fresh_race_part(&mut run, tier.pick(300, 6000) as usize, 8);
     }
     if !run.failed() {
@@ -735,6 +790,24 @@ pub fn replay(part: &str, j: &serde_json::Value) -> Verdict {
             }
             let after = img(&src);
             vensure!(before == after, "c18.ffi-depends-on-history", "parse_recipe gives {before:?} before and {after:?} after calls with invalid sources");
+            Ok(())
+        }
+        "repetition" => {
+            let c: InputCase = case_from(j)?;
+            let src = c.input();
+            let p = parser(c.ext, c.conv);
+            let meta = |s: &str| {
+                let m = p.parse_metadata(s);
+                format!("{:?}{:?}", m.output().map(|m| serde_json::to_string(m).unwrap_or_default()), m.report().iter().map(|d| d.message.to_string()).collect::<Vec<_>>())
+            };
+            let first = meta(&src);
+            for k in 0..2000 {
+                vensure!(meta(&src) == first, "c18.repeat-differs", "parse_metadata call #{} differs from the first", k + 2);
+            }
+            let first = crate::c02::result_image(&p.parse(&src));
+            for k in 0..500 {
+                vensure!(crate::c02::result_image(&p.parse(&src)) == first, "c18.repeat-differs", "parse call #{} differs from the first", k + 2);
+            }
             Ok(())
         }
         "entry-points" => {
